@@ -41,7 +41,7 @@ class Contract:
                  no_return=False, props=(), ghost_asserts=None, notes="", assumed=False,
                  locals=None, ghost_modifies=(), decreases=None, loop_all=None, closure=None,
                  waive=(), havoc_stmts=(), dyn_call_ghost=None, ghost_calls=(), exit_post=(),
-                 valid_schema=False):
+                 valid_schema=False, raise_post=(), rely=None):
         self.target = target
         self.requires = list(requires)
         self.ensures = list(ensures)
@@ -69,6 +69,11 @@ class Contract:
         self.ghost_calls = list(ghost_calls)   # ghost counters of calls to this function
         self.exit_post = list(exit_post)       # clauses over the locals, checked at every return
         self.valid_schema = valid_schema       # assume schema validity facts (A7) in this proof
+        self.rely = rely or {}   # callee short name -> {"closure": local def, "inv": [clauses]}:
+                                 # the callee may invoke that local closure any number of times;
+                                 # inv is proved inductive for the closure body and assumed after
+        self.raise_post = list(raise_post)     # clauses over the locals, checked at every `raise`
+                                               # statement of the function itself (not of callees)
 
 
 class Seq:
@@ -96,10 +101,11 @@ class World:
         self.havoc_callables = {}
         self.model_prefs_fns = []
         self.const_overrides = {}    # "module.NAME" -> type spec (module constant treated as havoc)
-        from . import builtins_lib, maps, refs
+        from . import builtins_lib, maps, refs, hof
         builtins_lib.install(self)
         maps.install(self)
         refs.install(self)
+        hof.install(self)
 
     # ---- sources ---------------------------------------------------------------------
     def load_module(self, modname):
@@ -594,6 +600,17 @@ class World:
             for q, con in self.contracts.items():
                 if q.endswith("." + name) and con.modifies:
                     attrs |= {m.split(".")[-1] for m in con.modifies}
+            if isinstance(f, ast.Name):
+                # a local bound to a function value (bound method, functools.partial, parameter)
+                v = it.st.env.get(f.id)
+                if isinstance(v, VFunc):
+                    con = None
+                    if v.builtin == "pfn" and self.pfn_contract is not None:
+                        con = self.pfn_contract[1]
+                    elif isinstance(v.fn, types.FunctionType):
+                        con = self.contracts.get(self.fnref_of(v.fn).qual)
+                    if con is not None and con.modifies:
+                        attrs |= {m.split(".")[-1] for m in con.modifies}
         return attrs
 
     def callee_ghost_modifies(self, it, calls):
